@@ -25,9 +25,11 @@ def run(tier, seed):
         spec = rng.choice(sorted(facts)); b = Builder("p%d" % i); exact = rng.random() < 0.4
         kp, kn = rng.choice(STORES), rng.choice(STORES)
         b.knew("s", spec, kp, kn, exact)
-        for v in rand_values(rng, rng.choice([1, 3, 8, 25, 70]), -2, 2, zeros=0.15): b.kadd("s", v, rng.choice([None, None, None, 2.0, 0.5]))
+        arbitrary = rng.random() < 0.35      # non-dyadic weights: full-length (8-9 byte) varfloat encodings, so that cuts fall inside long primitives
+        for v in rand_values(rng, rng.choice([1, 3, 8, 25, 70]), -2, 2, zeros=0.15):
+            b.kadd("s", v, rng.choice([0.3, 1.0 / 3, 0.1, 1e-3, 123.456, 2.0]) if arbitrary else rng.choice([None, None, None, 2.0, 0.5]))
         omit = rng.random() < 0.3
-        b.emit("kenc e s %d" % omit, "ok"); b.emit("bhex e"); b.meta = {"spec": spec, "exact": exact, "omit": omit}
+        b.emit("kenc e s %d" % omit, "ok"); b.emit("bhex e"); b.meta = {"spec": spec, "exact": exact, "omit": omit, "arbitrary": arbitrary}
         p1.append(b)
     res1 = core.run_cases(pid, "enc", [b.case() for b in p1]) if facts else []
     encs = []
@@ -43,7 +45,8 @@ def run(tier, seed):
         try: bounds = wire.block_bounds(eb)
         except Exception as ex:
             b = Builder("unparsable%d" % i); b.emit("braw e " + eb.hex(), bad_layout(ex)); builders.append(b); continue
-        spec = meta["spec"]; exact = meta["exact"]; kind = rng.choice(CONSUMERS)
+        spec = meta["spec"]; exact = meta["exact"]
+        kind = rng.choice(CONSUMERS[:3] if meta.get("arbitrary") else CONSUMERS)     # folding non-dyadic weights into an edge bin is inexact in floats
         b = Builder("t%d" % i); b.emit("mnew m " + spec, "ok"); b.emit("braw e " + eb.hex(), "ok")
         b.meta = {"len": len(eb), "blocks": len(bounds) - 1}
         ex = " exact" if exact else ""
